@@ -141,6 +141,14 @@ def run_seeded(S_, lang, seed, max_dev, stats, findings):
             findings.append({'level': 'tokens', 'lang': lang, 'n': n, 'kind': 'panic', 'msg': p['result']['msg'], 'where': short_fn(p['result']['where'] or ''), 'text': token_text(ex_model(p['pc']), meta)})
         else:
             disc, wf, _, rest = p['result']
+            # the seed text itself is the printed form of a well-formed pattern: the path that contains it must accept it completely
+            exact = []
+            for (d, ch, sv), (k, ident) in zip(meta, kinds):
+                exact.append(d == TOKENS.index(k))
+                if ident is not None: exact.append(ch.sel == IDENTS[lang].index(ident))
+            sx = z3.Solver(); sx.add(*p['pc']); sx.add(*exact)
+            if sx.check() == z3.sat and not (disc == 0 and rest == 0):
+                findings.append({'level': 'tokens', 'lang': lang, 'n': n, 'kind': 'valid_text_rejected', 'msg': 'the printed form of a well-formed pattern is rejected', 'where': 'parse_pattern', 'text': seed})
             if disc == 0 and wf is False: findings.append({'level': 'tokens', 'lang': lang, 'n': n, 'kind': 'illformed', 'msg': 'ill-formed Ok value', 'where': 'parse_pattern_nosubst', 'text': token_text(ex_model(p['pc']), meta)})
             elif disc == 0 and rest == 0 and stats.get('rt') is not None: stats['rt'].append((lang, token_text(ex_model(p['pc']), meta)))
     stats['fenc'] |= set(ex.inlined); stats['lmod'] |= ex.modelled; stats['solver_s'] += ex.t_solver; stats['branches'] += ex.n_branches
@@ -222,6 +230,7 @@ def confirmed(f, r):
     res = r['result']
     if f['kind'] == 'roundtrip': return not (res.startswith('ok same=true') or res.startswith('err'))      # found natively; the replay repeats it
     if f['kind'] == 'panic': return res.startswith('panic')
+    if f['kind'] == 'valid_text_rejected': return res.startswith('err') or res.startswith('panic')
     if f['level'].endswith('multi'): return res.startswith('ok wf=false') or res.startswith('panic')      # printing an ill-formed multi-pattern indexes past its child list
     return res.startswith('ok wf=false')
 
